@@ -69,6 +69,54 @@ m("c20-channel-push-blocks", "C20", "net/queue/queue.go",
 m("c20-pull-lifo", "C20", "net/queue/queue.go",
   "if elem := p.queue.Front(); elem != nil {", "if elem := p.queue.Back(); elem != nil {")
 
+# ---------------------------------------------------------------- C09
+m("c09-nbt-readstring-read", "C09", "nbt/decode.go",
+  "\t\tbuf := make([]byte, length)\n\t\t_, err = io.ReadFull(d.r, buf)", "\t\tbuf := make([]byte, length)\n\t\t_, err = d.r.Read(buf)")
+m("c09-nbt-readint32-read", "C09", "nbt/decode.go",
+  "func (d *Decoder) readInt32() (int32, error) {\n\tvar data [4]byte\n\t_, err := io.ReadFull(d.r, data[:])", "func (d *Decoder) readInt32() (int32, error) {\n\tvar data [4]byte\n\t_, err := d.r.Read(data[:])")
+m("c09-nbt-rawread-copyn-ignored", "C09", "nbt/decode.go",
+  "\t\tif _, err = io.CopyN(io.Discard, d.r, int64(aryLen)); err != nil {\n\t\t\treturn err\n\t\t}", "\t\t_, _ = io.CopyN(io.Discard, d.r, int64(aryLen))")
+m("c09-nbt-rawread-short-read", "C09", "nbt/decode.go",
+  "\tcase TagShort:\n\t\t_, err := io.ReadFull(d.r, buf[:2])\n\t\treturn err", "\tcase TagShort:\n\t\t_, err := d.r.Read(buf[:2])\n\t\treturn err")
+m("c09-nbt-readbyte-swallow", "C09", "nbt/nbt.go",
+  "\tif n == 1 {\n\t\treturn b[0], nil\n\t}\n\treturn 0, err", "\tif n == 1 {\n\t\treturn b[0], nil\n\t}\n\tif err == io.EOF {\n\t\treturn 0, nil\n\t}\n\treturn 0, err")
+m("c09-nbt-bytearray-read", "C09", "nbt/decode.go",
+  "\t\tif _, err = io.ReadFull(d.r, ba); err != nil {", "\t\tif _, err = d.r.Read(ba); err != nil && len(ba) > 0 {")
+m("c09-enc-writeint32-drop", "C09", "nbt/encode.go",
+  "\t\tif err := writeInt32(e.w, int32(n)); err != nil {\n\t\t\treturn err\n\t\t}\n\n\t\tif tagType == TagByteArray {", "\t\t_ = writeInt32(e.w, int32(n))\n\n\t\tif tagType == TagByteArray {")
+m("c09-enc-writetag-name-drop", "C09", "nbt/encode.go",
+  "\t_, err := w.Write(bName)\n\treturn err", "\t_, _ = w.Write(bName)\n\treturn nil")
+m("c09-enc-short-drop", "C09", "nbt/encode.go",
+  "\tcase TagShort:\n\t\treturn writeInt16(e.w, int16(val.Int()))", "\tcase TagShort:\n\t\t_ = writeInt16(e.w, int16(val.Int()))\n\t\treturn nil")
+m("c09-pack-plain-drop", "C09", "net/packet/packet.go",
+  "\t_, err := w.Write(buffer.Bytes())\n\treturn err", "\t_, _ = w.Write(buffer.Bytes())\n\treturn nil")
+m("c09-pack-zlib-short-write", "C09", "net/packet/packet.go",
+  "\t_, err := w.Write(buff.Bytes())\n\treturn err", "\tn, err := w.Write(buff.Bytes())\n\tif n > 0 {\n\t\treturn nil\n\t}\n\treturn err")
+m("c09-unpack-copyn-ignored", "C09", "net/packet/packet.go",
+  "\t_, err = io.CopyN(buff, r, int64(PacketLength))\n\tif err != nil {\n\t\treturn err\n\t}", "\t_, err = io.CopyN(buff, r, int64(PacketLength))\n\tif err != nil && err != io.EOF {\n\t\treturn err\n\t}")
+m("c09-rcon-write-drop", "C09", "net/rcon.go",
+  "\t_, err := r.Write(buf.Bytes())\n\treturn err", "\t_, _ = r.Write(buf.Bytes())\n\treturn nil")
+m("c09-rcon-read-body-read", "C09", "net/rcon.go",
+  "\terr = binary.Read(r, binary.LittleEndian, &buf)\n", "\t_, err = r.Read(buf)\n")
+m("c09-string-read", "C09", "net/packet/types.go",
+  "\tbs := make([]byte, l)\n\tif _, err := io.ReadFull(r, bs); err != nil {", "\tbs := make([]byte, l)\n\tif _, err := r.Read(bs); err != nil && l > 0 {")
+m("c09-long-read", "C09", "net/packet/types.go",
+  "\tvar bs [8]byte\n\tif nn, err := io.ReadFull(r, bs[:]); err != nil {", "\tvar bs [8]byte\n\tif nn, err := r.Read(bs[:]); err != nil {")
+m("c09-uuid-read", "C09", "net/packet/types.go",
+  "\tnn, err := io.ReadFull(r, (*u)[:])", "\tnn, err := r.Read((*u)[:])")
+m("c09-bytearray-eof-ok", "C09", "net/packet/types.go",
+  "\tn2, err := io.ReadFull(r, *b)\n\treturn n1 + int64(n2), err", "\tn2, err := io.ReadFull(r, *b)\n\tif err == io.ErrUnexpectedEOF {\n\t\terr = nil\n\t}\n\treturn n1 + int64(n2), err")
+m("c09-countingreader-miscount", "C09", "net/packet/types.go",
+  "\tn, err = c.r.Read(p)\n\tc.n += int64(n)", "\tn, err = c.r.Read(p)\n\tc.n += int64(len(p))")
+m("c09-bytereaderwrapper-read", "C09", "net/packet/util.go",
+  "\t_, err := io.ReadFull(r.Reader, buf[:])\n\treturn buf[0], err", "\tn, err := r.Reader.Read(buf[:])\n\tif n == 1 {\n\t\terr = nil\n\t}\n\treturn buf[0], err")
+m("c09-dynbt-string-read", "C09", "nbt/dynbt/decode.go",
+  "\t\t_, err = io.ReadFull(r, v.data[2:])", "\t\t_, err = r.Read(v.data[2:])\n\t\tif n == 0 {\n\t\t\terr = nil\n\t\t}")
+m("c09-tuple-drop-err", "C09", "net/packet/util.go",
+  "\t\tnn, err := v.(FieldEncoder).WriteTo(w)\n\t\tif err != nil {\n\t\t\treturn n, err\n\t\t}", "\t\tnn, err := v.(FieldEncoder).WriteTo(w)\n\t\tif err != nil && nn == 0 {\n\t\t\treturn n, err\n\t\t}")
+m("c09-dynbt-marshal-drop", "C09", "nbt/dynbt/encode.go",
+  "func writeInt32(w io.Writer, n int32) error {\n\t_, err := w.Write(", "func writeInt32(w io.Writer, n int32) error {\n\tvar err error\n\t_, _ = w.Write(")
+
 
 def sh(cmd, cwd=None, timeout=3600, env=ENV):
     p = subprocess.run(cmd, shell=True, cwd=cwd, env=env, stdout=subprocess.PIPE, stderr=subprocess.STDOUT, text=True, timeout=timeout)
